@@ -17,7 +17,7 @@ def main():
         env = dict(os.environ, VERIF_REPO=d, VERIF_NO_XCHECK="1", VERIF_OUT=d)
         r = subprocess.run(["/verif/check", pid] + extra, env=env, capture_output=True, text=True)
         out = [l for l in r.stdout.splitlines() if not l.startswith("WARNING")]
-        print("\n".join(out[-8:]))
+        print("\n".join(out[-int(os.environ.get("MUT_TAIL","8")):]))
         print("exit", r.returncode)
     finally:
         shutil.rmtree(d, ignore_errors=True)
